@@ -37,7 +37,25 @@ def run(tier):
     chosen = thin + rest[: (150 if quick else len(rest))]
     # ---- GEN 2: longer random behaviours over a larger alphabet
     sim = vlib.tlc_sim("RaftMeta.tla", "SIM_RaftMeta.cfg", num=120 if quick else 2000, depth=30, seed=c.seed, name="c05_sim")
-    beh = chosen + sim
+    # ---- GEN 3: kind-first simulation (SimRaftMeta.tla): compactions and reopens as often as parameter-rich kinds,
+    # so that "compaction, membership / address change, compaction" and its variants with reopens are replayed
+    simk = vlib.tlc_sim("SimRaftMeta.tla", "SIM_RaftMeta_kind.cfg", num=60 if quick else 1500, depth=40, seed=c.seed, name="c05_simk")
+    rnd.shuffle(simk)
+
+    def two_compactions_around_a_change(b):
+        ops = [s["op"] for s in b["steps"]]
+        for i, o in enumerate(ops):
+            if o == "cat_snapshot":
+                for j in range(i + 1, len(ops)):
+                    if ops[j] in ("members", "node_addr") and "cat_snapshot" in ops[j + 1:]:
+                        return True
+        return False
+    simk.sort(key=lambda b: 0 if two_compactions_around_a_change(b) else 1)
+    simk = simk[: (200 if quick else 6000)]
+    c.cov["behaviours_with_a_change_between_two_compactions"] = sum(1 for b in simk if two_compactions_around_a_change(b))
+    if c.cov["behaviours_with_a_change_between_two_compactions"] < 20:
+        raise ToolError("kind-first simulation produced too few compaction / change / compaction behaviours")
+    beh = chosen + sim + simk
     bf = vlib.write_ndjson(os.path.join(sc, "beh.ndjson"), beh)
     res = vlib.harness(["replay", "meta", bf, "--jobs", 8], timeout=3000)
     summ = [r for r in res if r.get("kind") == "summary"][0]
@@ -59,7 +77,7 @@ def run(tier):
     return c.finish(
         rule="behaviours = all length-3 sequences over {save-hard-state, members, node-addr, catalogue-log, "
              "catalogue-snapshot, reopen} of a small alphabet (behaviours whose reopen meets an index file of <= 24 bytes "
-             "first, seeded sample of the rest in quick tier) + TLC-simulated 9-step sequences over 4 nodes; replayed on "
+             "first, seeded sample of the rest in quick tier) + TLC-simulated 9-step sequences over 4 nodes + kind-first simulated 12-step sequences (compactions and reopens as frequent as the parameter-rich kinds; those with a membership / address change between two compactions first); replayed on "
              "FileStore on a mini node (reopen = new process), get_initial_state / get_membership_config / "
              "get_target_addr compared after every step; non-trivial = contains a reopen",
         checker_cmd="tools/vcheck C05 --tier %s" % tier)
